@@ -64,8 +64,12 @@ func (u *User) init() error {
 		}
 	}
 
-	initMatchers(u.PushAccess, &u.pushMatchers)
-	initMatchers(u.PullAccess, &u.pullMatchers)
+	// rebuild from scratch: init also runs on update (CopyFrom), and appending
+	// would keep the matchers of rights that were just removed
+	var pushMatchers, pullMatchers []PathMatcher
+	initMatchers(u.PushAccess, &pushMatchers)
+	initMatchers(u.PullAccess, &pullMatchers)
+	u.pushMatchers, u.pullMatchers = pushMatchers, pullMatchers
 	return nil
 }
 
